@@ -42,6 +42,11 @@ class ClassV:
                 r = b.lookup(attr)
                 if r is not None: return r
         return None
+    def mro(self):
+        out = [self]
+        for b in self.bases:
+            if isinstance(b, ClassV): out += [c for c in b.mro() if c not in out]
+        return out
     def mro_names(self):
         out = [self.name]
         for b in self.bases:
@@ -61,6 +66,9 @@ class ExcName:
     def __eq__(self, o): return isinstance(o, ExcName) and o.name == self.name
     def __hash__(self): return hash(self.name)
 
+class SuperV:
+    def __init__(self, obj, owner): self.obj, self.owner = obj, owner
+
 class Bound:
     def __init__(self, obj, func): self.obj, self.func = obj, func
 
@@ -77,7 +85,11 @@ class Dyn:
 
 class Lazy:
     """a BaseDeferred object standing for a value known later; final = value wait() yields"""
-    def __init__(self, final, typ="int", size=None): self.final, self.typ, self.size = final, typ, size
+    def __init__(self, final, typ="int", size=None, announced=None):
+        self.final, self.typ, self.size = final, typ, size
+        # what .length() would report: the fixed size of a SizedDeferred, the true length of an unsized Deferred,
+        # the sum of the parts' announcements for a Concatenator
+        self.announced = announced if announced is not None else size
     def __repr__(self): return f"<Lazy {self.typ} {self.final}>"
 
 class Env:
@@ -99,6 +111,9 @@ class Env:
                 e = e.parent
             raise Unsupported(f"nonlocal {name} not found")
         self.vars[name] = value
+
+def _mk(v, tag):
+    return isinstance(v, tuple) and len(v) > 0 and isinstance(v[0], str) and v[0] == tag
 
 def is_sym(v): return isinstance(v, z3.ExprRef)
 def is_symint(v): return isinstance(v, z3.ArithRef)
@@ -146,6 +161,7 @@ class Engine:
         self.fresh_n = 0
         self.inputs = {}
         self.keep_smt2 = False
+        self.shift_src = {}
         self.loop_specs = {}      # (qualname, ordinal) -> LoopSpec
         self.assumptions = set()  # abstractions actually used on some path
 
@@ -170,7 +186,10 @@ class Engine:
             for a in node.names:
                 env.vars[a.asname or a.name] = ("pyimport", a.name)
         elif isinstance(node, ast.FunctionDef):
-            env.vars[node.name] = Func(node, env, mod, node.name)
+            if node.decorator_list and mod["name"] in DECORATORS_INTERPRETED:
+                env.vars[node.name] = ("lazydecorated", node)
+            else:
+                env.vars[node.name] = Func(node, env, mod, node.name)
         elif isinstance(node, ast.ClassDef):
             env.vars[node.name] = ("lazyclass", node)
         elif isinstance(node, ast.Assign) and len(node.targets) == 1 and isinstance(node.targets[0], ast.Name):
@@ -180,7 +199,7 @@ class Engine:
     def resolve_global(self, mod, name):
         env = mod["env"]
         v = env.vars[name]
-        if isinstance(v, tuple) and v and v[0] == "import":
+        if _mk(v, "import"):
             _, module, attr, level = v
             if module is None:   # from . import x
                 v = ("module", attr)
@@ -188,26 +207,38 @@ class Engine:
                 m = self.load_module(module)
                 v = self.resolve_global(m, attr)
             env.vars[name] = v
-        elif isinstance(v, tuple) and v and v[0] == "pyimport":
+        elif _mk(v, "pyimport"):
             v = ("pymodule", v[1]); env.vars[name] = v
-        elif isinstance(v, tuple) and v and v[0] == "lazyclass":
-            node = v[1]
-            bases = []
-            for b in node.bases:
-                try: bases.append(self.eval(b, env, mod))
-                except Exception: bases.append(Opaque("base"))
-            ns = {}
-            cls = ClassV(node.name, bases, ns, mod)
-            for item in node.body:
-                if isinstance(item, ast.FunctionDef):
-                    ns[item.name] = Func(item, env, mod, f"{node.name}.{item.name}")
-                elif isinstance(item, ast.Assign) and isinstance(item.targets[0], ast.Name):
-                    try: ns[item.targets[0].id] = self.eval(item.value, env, mod)
-                    except Unsupported: pass
-            v = cls; env.vars[name] = v
-        elif isinstance(v, tuple) and v and v[0] == "lazyconst":
+        elif _mk(v, "lazyclass"):
+            v = self.build_class(v[1], env, mod); env.vars[name] = v
+        elif _mk(v, "lazyconst"):
             v = self.eval(v[1], env, mod); env.vars[name] = v
+        elif _mk(v, "lazydecorated"):
+            # module-level function whose decorators are interpreted (operators.py: @operator(...) builds the token class)
+            node = v[1]
+            val = Func(node, env, mod, node.name)
+            env.vars[name] = val
+            for d in reversed(node.decorator_list):
+                val = self.call(self.eval(d, env, mod), [val], {})
+            v = val; env.vars[name] = v
         return v
+
+    def build_class(self, node, env, mod):
+        bases = []
+        for b in node.bases:
+            try: bases.append(self.eval(b, env, mod))
+            except Unsupported: bases.append(Opaque("base"))
+        ns = {}
+        cls = ClassV(node.name, bases, ns, mod)
+        for item in node.body:
+            if isinstance(item, ast.FunctionDef):
+                f = Func(item, env, mod, f"{node.name}.{item.name}"); f.owner = cls
+                f.is_classmethod = any(isinstance(d, ast.Name) and d.id == "classmethod" for d in item.decorator_list)
+                ns[item.name] = f
+            elif isinstance(item, ast.Assign) and isinstance(item.targets[0], ast.Name):
+                try: ns[item.targets[0].id] = self.eval(item.value, env, mod)
+                except Unsupported: pass
+        return cls
 
     # ---------- solver
     def check(self, extra):
@@ -321,7 +352,7 @@ class Engine:
         except KeyError:
             if n.id in BUILTINS: return BUILTINS[n.id]
             raise Unsupported(f"name {n.id} at {mod['name']}:{n.lineno}")
-        if isinstance(v, tuple) and v and isinstance(v[0], str) and v[0] in ("import", "pyimport", "lazyclass", "lazyconst"):
+        if isinstance(v, tuple) and v and isinstance(v[0], str) and v[0] in ("import", "pyimport", "lazyclass", "lazyconst", "lazydecorated"):
             # module-level lazy binding: find defining module env
             e = env
             while e.parent is not None: e = e.parent
@@ -373,6 +404,7 @@ class Engine:
     def e_BinOp(self, n, env, mod):
         return self.binop(n.op, self.eval(n.left, env, mod), self.eval(n.right, env, mod), n)
     def undyn(self, v):
+        if isinstance(v, BitOf): return v.term
         if isinstance(v, Dyn):
             if not self.branch(v.is_int): raise PyRaise(Exc("TypeError"))
             return v.ival
@@ -392,7 +424,7 @@ class Engine:
             if typ == "bytes" and isinstance(op, ast.Add) and isinstance(b, (bytes, bytearray)) and len(b) == 0: return a   # BaseDeferred.__add__: 'not rhs' -> self
             if typ == "bytes" and isinstance(op, ast.Add) and isinstance(a, (bytes, bytearray)) and len(a) == 0: return b   # __radd__
             if typ == "bytes" and isinstance(op, ast.Add):
-                return Lazy(self.binop(op, fa, fb), "bytes")
+                return Lazy(self.binop(op, fa, fb), "bytes", None, announced_len(a) + announced_len(b))
             raise PyRaise(Exc("TypeError"))      # BaseDeferred defines no other operators
         if isinstance(a, (bytes, bytearray)) or is_symbytes(a) or isinstance(b, (bytes, bytearray)) or is_symbytes(b):
             if isinstance(op, ast.Add):
@@ -439,7 +471,9 @@ class Engine:
             raise Unsupported("pow")
         if isinstance(op, ast.RShift):
             if not sym: return a >> b
-            if isinstance(b, int): return fdiv(a, 2 ** b)
+            if isinstance(b, int):
+                r = fdiv(a, 2 ** b) if b else a + 0
+                self.shift_src[r.get_id()] = (a, b, r); return r
             self.assume(pow2(b) >= 1); return fdiv(a, pow2(b))
         if isinstance(op, ast.LShift):
             if not sym: return a << b
@@ -447,6 +481,8 @@ class Engine:
             self.assume(pow2(b) >= 1); return a * pow2(b)
         if isinstance(op, ast.BitAnd):
             if not sym: return a & b
+            if isinstance(b, int) and b == 1 and is_sym(a) and a.get_id() in self.shift_src:
+                v, i, _keep = self.shift_src[a.get_id()]; return BitOf(v, i)
             if isinstance(b, int) and b >= 0 and (b & (b + 1)) == 0: return fmod(a, b + 1)     # mask 2^k-1
             if isinstance(a, int) and a >= 0 and (a & (a + 1)) == 0: return fmod(b, a + 1)
             raise Unsupported("bitand")
@@ -457,6 +493,13 @@ class Engine:
             return self.bitor(a, b)
         raise Unsupported(f"binop {type(op).__name__}")
     def bitor(self, a, b, width=16):
+        # concrete | symbolic with disjoint bit ranges (0o60 | register): exact as a sum, under a proved range fact
+        for c, x in ((a, b), (b, a)):
+            if isinstance(c, int) and c > 0 and is_symint(x):
+                k = (c & -c).bit_length() - 1
+                if k > 0:
+                    r, _ = self.check([z3.Not(z3.And(x >= 0, x < 2 ** k))])
+                    if r == z3.unsat: return c + x
         a = z3.IntVal(a) if isinstance(a, int) else a
         b = z3.IntVal(b) if isinstance(b, int) else b
         # require both within [0, 2^width): obligation-free assumption is unsound, so branch on it
@@ -505,6 +548,10 @@ class Engine:
         if isinstance(a, TypeV) or isinstance(b, TypeV): return a is b
         raise Unsupported(f"identity {a!r} {b!r}")
     def contains(self, container, item):
+        if isinstance(container, Obj):
+            if "__contains__" in container.attrs: return self.call(container.attrs["__contains__"], [item], {})
+            if isinstance(container.cls, ClassV) and container.cls.lookup("__contains__") is not None:
+                return self.call(Bound(container, container.cls.lookup("__contains__")), [item], {})
         if isinstance(container, (tuple, list, dict, str, set)) and not is_sym(item):
             return item in container
         if isinstance(container, (tuple, list)) and is_sym(item):
@@ -522,6 +569,13 @@ class Engine:
             key = f"{v[1]}.{attr}"
             if key in BUILTINS: return BUILTINS[key]
             raise Unsupported(f"python module attr {key}")
+        if isinstance(v, SuperV):
+            for b in v.owner.bases:
+                if isinstance(b, ClassV):
+                    f = b.lookup(attr)
+                    if isinstance(f, Func): return Bound(v.obj, f)
+            if attr == "__init__": return Builtin("object.__init__", lambda eng, *a, **k: None)
+            raise Unsupported(f"super().{attr}")
         if isinstance(v, Obj):
             if attr in v.attrs: return v.attrs[attr]
             if isinstance(v.cls, ClassV):
@@ -532,9 +586,11 @@ class Engine:
             if hook: return hook(self, v)
             # opaque attribute: materialise an opaque child, remembered
             child = Obj("opaque", name=f"{v.name}.{attr}"); v.attrs[attr] = child; return child
+        if isinstance(v, Func) and attr == "__name__": return v.node.name if not isinstance(v.node, ast.Lambda) else "<lambda>"
         if isinstance(v, ClassV):
             f = v.lookup(attr)
             if f is not None: return f
+            if attr == "__name__": return v.name
         if isinstance(v, Opaque): return Opaque(v.tag + "." + attr)
         if isinstance(v, dict) and attr in ("get", "items", "keys", "values"):
             return Builtin("dict." + attr, lambda eng, *a, _m=getattr(v, attr): _m(*a))
@@ -580,6 +636,8 @@ class Engine:
             if is_sym(idx): raise Unsupported("symbolic index into concrete seq")
             try: return v[idx]
             except IndexError: raise PyRaise(Exc("IndexError"))
+        if isinstance(v, Obj) and isinstance(v.cls, ClassV) and v.cls.lookup("__getitem__") is not None:
+            return self.call(Bound(v, v.cls.lookup("__getitem__")), [idx], {})
         if isinstance(v, Obj) and "__items__" in v.attrs:
             d = v.attrs["__items__"]
             if idx in d: return d[idx]
@@ -607,6 +665,11 @@ class Engine:
         raise Unsupported(f"iterate over {it!r}")
 
     def e_Call(self, n, env, mod):
+        if isinstance(n.func, ast.Name) and n.func.id == "super" and not n.args:
+            e = env
+            while e is not None and getattr(e, "owner_class", None) is None: e = e.parent
+            if e is None: raise Unsupported("super() outside a method")
+            return SuperV(e.self_obj, e.owner_class)
         f = self.eval(n.func, env, mod)
         args = []
         for a in n.args:
@@ -638,6 +701,8 @@ class Engine:
     def call_func(self, f, args, kwargs):
         node = f.node
         env = Env(f.env)
+        env.owner_class = getattr(f, "owner", None) or getattr(f.env, "owner_class", None)
+        env.self_obj = args[0] if (getattr(f, "owner", None) is not None and args) else getattr(f.env, "self_obj", None)
         a = node.args
         params = [p.arg for p in a.args]
         defaults = a.defaults
@@ -671,9 +736,12 @@ class Engine:
         tname = "int" if typ is int else "bytes" if typ is bytes else "obj"
         if size is not None:
             self.path.notes.append(("sized", size, value))
-        eager = self.fresh_bool("eager")
-        if self.branch(eager): return value
-        if isinstance(value, Lazy): return value
+        mode = getattr(self, "lazy_mode", "both")
+        if mode == "eager": return value
+        if mode == "both":
+            eager = self.fresh_bool("eager")
+            if self.branch(eager): return value
+        if isinstance(value, Lazy): return Lazy(value.final, tname, size if size is not None else value.size)
         return Lazy(value, tname, size)
 
     # ---------- statements
@@ -689,10 +757,15 @@ class Engine:
     def s_Break(self, st, env, mod): raise BreakSig()
     def s_Continue(self, st, env, mod): raise ContinueSig()
     def s_Nonlocal(self, st, env, mod): env.nonlocals.update(st.names)
-    def s_FunctionDef(self, st, env, mod): env.assign(st.name, Func(st, env, mod, st.name))
+    def s_FunctionDef(self, st, env, mod):
+        f = Func(st, env, mod, st.name); f.owner = getattr(env, "owner_class", None)
+        env.assign(st.name, f)
+    def s_ClassDef(self, st, env, mod): env.assign(st.name, self.build_class(st, env, mod))
     def s_Assign(self, st, env, mod):
         v = self.eval(st.value, env, mod)
         for t in st.targets: self.assign_target(t, v, env, mod)
+    def s_AnnAssign(self, st, env, mod):
+        if st.value is not None: self.assign_target(st.target, self.eval(st.value, env, mod), env, mod)
     def s_AugAssign(self, st, env, mod):
         cur = self.eval(st.target, env, mod)
         v = self.binop(st.op, cur, self.eval(st.value, env, mod))
@@ -706,11 +779,18 @@ class Engine:
         elif isinstance(t, ast.Attribute):
             o = self.eval(t.value, env, mod)
             if isinstance(o, Obj):
-                o.attrs[t.attr] = v; self.path.notes.append(("store", o.name, t.attr))
+                o.attrs[t.attr] = v
+                if self.path is not None: self.path.notes.append(("store", o, t.attr, v))
+            elif isinstance(o, ClassV):
+                o.ns[t.attr] = v
+                if t.attr == "__name__" and isinstance(v, str): o.name = v
+                if self.path is not None: self.path.notes.append(("class-store", o, t.attr, v))
             else: raise Unsupported("attr store")
         elif isinstance(t, ast.Subscript):
             o = self.eval(t.value, env, mod); i = self.eval(t.slice, env, mod)
             if isinstance(o, (list, dict)) and not is_sym(i): o[i] = v
+            elif isinstance(o, Obj) and isinstance(o.cls, ClassV) and o.cls.lookup("__setitem__") is not None:
+                self.call(Bound(o, o.cls.lookup("__setitem__")), [i, v], {})
             else: raise Unsupported("subscript store")
         else: raise Unsupported("assign target")
     def s_If(self, st, env, mod):
@@ -795,6 +875,7 @@ class Engine:
             if name in EXC_PARENTS.get(exc.cls, ()): return True
         return False
 
+DECORATORS_INTERPRETED = {"operators"}
 EXC_CLASSES = {"RecoverableError", "UnrecoverableError", "NotReadyError", "DeferredCycle"}
 EXC_PARENTS = {"FileNotFoundError": ("OSError", "IOError"), "IsADirectoryError": ("OSError", "IOError"), "ZeroDivisionError": ("ArithmeticError",),
                "UnicodeEncodeError": ("UnicodeError", "ValueError"), "UnicodeDecodeError": ("UnicodeError", "ValueError"),
@@ -826,10 +907,16 @@ def b_isinstance(eng, v, cls):
                 if c.name in ("BaseDeferred",): return True
                 if c.name in ("Deferred", "SizedDeferred", "LinearPolynomial", "Concatenator", "Promise"): raise Unsupported("isinstance on Lazy subclass")
                 continue
-            if isinstance(v, Obj) and isinstance(v.cls, ClassV) and c.name in v.cls.mro_names(): return True
+            if isinstance(v, Obj) and isinstance(v.cls, ClassV) and any(c is k for k in v.cls.mro()): return True
             if isinstance(v, Obj) and isinstance(v.cls, str) and v.cls == "opaque": raise Unsupported(f"isinstance of opaque {v} vs {c.name}")
             continue
     return False
+
+def announced_len(v):
+    if isinstance(v, Lazy):
+        return v.announced if v.announced is not None else z3.Length(to_z3bytes(v.final))
+    if isinstance(v, ByteBuf): v = v.v
+    return z3.Length(v) if is_symbytes(v) else len(v)
 
 def b_len(eng, v):
     if is_symbytes(v): return z3.Length(v)
@@ -879,21 +966,39 @@ def b_int(eng, v, base=10):
     return int(v, base) if isinstance(v, str) else int(v)
 
 class SymBits:
-    """a str built from '0'/'1' characters some of which are symbolic bits (list of int|z3 Int)"""
+    """a str built from '0'/'1' characters some of which are symbolic bits (list of int | SymDigit).
+    value(): runs of digits (v,k-1) ... (v,0) of one value v are recomposed to v mod 2^k - justified by
+    the step lemmas  v mod 2^k == ((v div 2^(k-1)) mod 2) * 2^(k-1) + v mod 2^(k-1)  (lemma unit bit-recomposition)."""
     def __init__(self, bits): self.bits = bits
     def value(self):
-        n = len(self.bits)
-        return z3.Sum([b * 2 ** (n - 1 - i) for i, b in enumerate(self.bits)])
+        n = len(self.bits); terms = []; i = 0
+        while i < n:
+            b = self.bits[i]
+            if isinstance(b, SymDigit) and b.src is not None:
+                v, hi = b.src; j = i
+                while (j + 1 < n and isinstance(self.bits[j + 1], SymDigit) and self.bits[j + 1].src is not None
+                       and self.bits[j + 1].src[0] is v and self.bits[j + 1].src[1] == self.bits[j].src[1] - 1): j += 1
+                lo = self.bits[j].src[1]; k = hi - lo + 1
+                if lo == 0 and k > 1:
+                    terms.append((v % 2 ** k) * 2 ** (n - 1 - j)); i = j + 1; continue
+            bit = b.bit if isinstance(b, SymDigit) else b
+            terms.append(bit * 2 ** (n - 1 - i)); i += 1
+        return z3.Sum(terms) if any(is_sym(t) for t in terms) else sum(terms)
 
 class SymDigit:
-    def __init__(self, bit): self.bit = bit
+    def __init__(self, bit, src=None): self.bit = bit; self.src = src
 
 def b_str(eng, v):
+    if isinstance(v, BitOf): return SymDigit(v.term, (v.v, v.i))
     if is_symint(v):
         # str() of a symbolic int is only modelled for single binary digits
         if not eng.branch(z3.And(v >= 0, v <= 1)): raise Unsupported("str(symbolic int) outside {0,1}")
         return SymDigit(v)
     return str(v)
+
+class BitOf:
+    """(v >> i) & 1 of a symbolic v with provenance"""
+    def __init__(self, v, i): self.v, self.i = v, i; self.term = fdiv(v, 2 ** i) % 2
 
 def b_join(sep):
     def fn(eng, items):
@@ -902,7 +1007,7 @@ def b_join(sep):
             assert sep == ""
             bits = []
             for it in items:
-                if isinstance(it, SymDigit): bits.append(it.bit)
+                if isinstance(it, SymDigit): bits.append(it)
                 elif isinstance(it, str) and len(it) == 1 and it in "01": bits.append(int(it))
                 else: return Opaque("str")      # non-binary char: isdigit() may fail
             return SymBits(bits)
@@ -921,7 +1026,7 @@ BUILTINS = {
     "range": Builtin("range", lambda eng, *a: range(*a)),
     "zip": Builtin("zip", lambda eng, *a: list(zip(*[eng.iterate(x) for x in a]))),
     "enumerate": Builtin("enumerate", lambda eng, a: list(enumerate(eng.iterate(a)))),
-    "type": Builtin("type", lambda eng, v: Opaque("type")),
+    "type": Builtin("type", lambda eng, v: v.cls if isinstance(v, Obj) and isinstance(v.cls, ClassV) else Opaque("type")),
     "hasattr": Builtin("hasattr", lambda eng, o, a: b_hasattr(eng, o, a)),
     "callable": Builtin("callable", lambda eng, v: isinstance(v, (Func, Builtin, Bound, ClassV))),
     "float": Builtin("float", lambda eng, v: float(v)),
@@ -942,6 +1047,12 @@ for _n in ("Exception", "BaseException", "TypeError", "ValueError", "KeyError", 
            "LookupError", "RecursionError"):
     BUILTINS[_n] = ExcName(_n)
 BUILTINS["struct.error"] = ExcName("struct.error")
+def b_type_hints(eng, fn):
+    out = {}
+    if isinstance(fn, Func) and getattr(fn.node, "returns", None) is not None:
+        out["return"] = eng.eval(fn.node.returns, fn.env, fn.module)
+    return out
+BUILTINS["typing.get_type_hints"] = Builtin("typing.get_type_hints", b_type_hints)
 BUILTINS["NotImplemented"] = NotImplemented
 BUILTINS["None"] = None
 
